@@ -108,6 +108,8 @@ def main(repo, data_dir, out, order='f'):
             s['senses'] = c(senses)
             s['synsets'] = c(synsets)
             sel_words, sel_syn = words[:4], synsets[:5]
+            # arguments must be identical in every pass: build them before any reordering
+            corpus = [str(x.lemma()) for x in words] * 2 + ['unknown-token', 'cat']
             if reverse:
                 # entities are visited in another order too (results are keyed by lexicon
                 # and id): no answer may depend on which entity was asked first
@@ -145,7 +147,6 @@ def main(repo, data_dir, out, order='f'):
                 s['roots:' + pos] = call(wn.taxonomy.roots, w, pos)
                 s['leaves:' + pos] = call(wn.taxonomy.leaves, w, pos)
                 s['depth:' + pos] = call(wn.taxonomy.taxonomy_depth, w, pos)
-            corpus = [str(x.lemma()) for x in words] * 2 + ['unknown-token', 'cat']
             freq = None
             try:
                 freq = wn.ic.compute(corpus, w, distribute_weight=True, smoothing=1.0)
